@@ -323,10 +323,62 @@ def compare(exp, got):
     return bad
 
 
+def exit_stack_children():
+    """'for EVERY context': the child contexts an exit stack's glue builds go through the same elaborate / unwrap loop,
+    whether they stand for an entered manager or for a bare exit callback (a callable object pushed on the stack)"""
+    seen = []
+
+    class Resource:
+        def __bool__(self):
+            return False
+
+    class Closer:
+        def __init__(self, res):
+            self.res = res
+
+        def __call__(self, *exc):
+            return False
+
+    @stackscope.unwrap_context.register(Closer)
+    def _unwrap_closer(mgr, context):
+        seen.append("unwrap Closer")
+        return mgr.res
+
+    @stackscope.elaborate_context.register(Resource)
+    def _elab_resource(mgr, context):
+        seen.append("elaborate Resource")
+        context.description = "the resource behind the closer"
+    bad = []
+    for inside in (False, True):
+        del seen[:]
+        res = Resource()
+        es = contextlib.ExitStack()
+        es.push(Closer(res))
+        ctx = Context(obj=es, is_async=False)
+
+        def go():
+            stackscope.fill_context(ctx)
+        if inside:
+            stackscope.extract(Trigger(go), with_contexts=True)
+        else:
+            go()
+        kids = list(ctx.children)
+        if len(kids) != 1 or kids[0].obj is not res or "the resource behind the closer" not in (kids[0].description or "") \
+                or seen != ["unwrap Closer", "elaborate Resource"]:
+            bad.append("ExitStack child for a pushed callable object (inside an extraction: %s): obj %s, description %r, hooks %s; "
+                       "expected the unwrap_context hook of its type, then the elaboration of what it returned"
+                       % (inside, type(kids[0].obj).__name__ if kids else None, kids[0].description if kids else None, seen))
+        es.close()
+    return bad
+
+
 def main():
     data = json.load(open(sys.argv[1]))
     install_logging()
     out = {"n": 0, "mismatches": []}
+    for b in exit_stack_children():
+        out["mismatches"].append({"tid": 0, "inside": "-", "bad": [b], "case": {}})
+    out["n"] += 2
     for case in data["cases"]:
         results = []
         for inside in (False, True):
